@@ -77,19 +77,23 @@ def training_step_sums_every_weighted_condition_once(S):
     PS = z3.Function("PS", z3.IntSort(), z3.RealSort())
     S.ctx.axiom(PS(0) == 0)
 
+    # the accumulator of the loop is 'the local that training_step returns' (whatever it is called); every other
+    # variable the loop body assigns is a temporary (made undefined at the loop head by the engine)
+    from tpv.spec import returned_local
+
+    acc = returned_local(S.find(SOLVER + ".training_step")) or "loss"
+
     def make(I_, env, i):
         iz = zint(i)
         v = z3.Real(core.fresh_name("loss"))
         I_.ctx.assume(v == PS(iz))
         # defining recurrence of the partial sum, at this iteration
         I_.ctx.axiom(PS(iz + 1) == PS(iz) + fam.w(iz) * fam.L(iz, zint(step0)))
-        env.vars["loss"] = Tensor(STensor([Dim([])], lambda idx: v, "real"))
-        env.vars["cond_loss"] = None
-        env.vars["condition"] = None
+        env.vars[acc] = Tensor(STensor([Dim([])], lambda idx: v, "real"))
 
     def check(I_, env, i, tag):
         iz = zint(i)
-        lt = env.vars["loss"]
+        lt = env.vars[acc]
         ok = isinstance(lt, Tensor) and lt.val.numel_concrete() == 1
         S.ensure(f"training-loop/{tag}:loss-is-a-scalar", ok, kind="inv")
         if ok:
@@ -97,7 +101,7 @@ def training_step_sums_every_weighted_condition_once(S):
             S.ensure(f"training-loop/{tag}:loss-is-the-partial-weighted-sum", lv == PS(iz), kind="inv")
         S.ensure(f"training-loop/{tag}:step-counter-untouched-inside-the-loop", zint(S.getattr(sol, "n_training_step")) == zint(step0), kind="inv")
 
-    S.loop(SOLVER + ".training_step", 0, LoopSpec(make, check, modifies=["loss", "cond_loss", "condition"], label="training-loop"))
+    S.loop(SOLVER + ".training_step", 0, LoopSpec(make, check, modifies=[acc], label="training-loop"))
     before_calls = len(fam.calls)
     out = S.method(sol, "training_step", None, 0)
     lv = zreal(out.val.at([tuple(0 for _ in d.factors) for d in out.val.shape]))
